@@ -26,6 +26,8 @@ class IC10Register:
     nodes_writing: list[nodes.NodeNG] = field(default_factory=list)
     # accesses through other names that stand for this register (x in 'x = y')
     nodes_alias: list[nodes.NodeNG] = field(default_factory=list)
+    # the register this name stands for, if it has none of its own
+    alias_of: "IC10Register | None" = None
 
     def __hash__(self):
         return hash((self.code_expr, self.scope))
